@@ -90,14 +90,13 @@ def _dw_case(case):
     out = {"failures": fails, "canon": (dw.canon(sa), op.f.get_f_dict_size()), "nontrivial": len(history) > 0,
            "outcome": tuple(round(float(x), 10) for x in res)}
     if case.get("want_events", False):
-        out["events"] = dw.events(sa, config.get("s", 1))
+        out["events"] = dw.events_for(sa, config)
     return out
 
 
 # ------------------------------------------------------------------ extend-split
-def _es_fresh_sum(sa, op):
-    from sparseSpACE.Grid import TrapezoidalGrid
-    g = TrapezoidalGrid(np.array(sa.a, dtype=float), np.array(sa.b, dtype=float), boundary=True)
+def _es_fresh_sum(sa, op, config):
+    g = es.make_grid(config, np.array(sa.a, dtype=float), np.array(sa.b, dtype=float))
     tot = np.zeros(op.f.output_length())
     mag = 0.0
     per_area = []
@@ -122,7 +121,7 @@ def _es_case(case):
     sa, op = r.sa, r.op
     res = np.array(r.result[3], dtype=float)
     fails = []
-    fresh, mag, per_area = _es_fresh_sum(sa, op)
+    fresh, mag, per_area = _es_fresh_sum(sa, op, config)
     if not _close(res, fresh, mag):
         fails.append(fail("result_equals_fresh_component_sum", "reported %r, fresh per-area component sum %r" % (res, fresh), key))
     vals = sum(np.asarray(o.value, dtype=float) for o in sa.refinement.get_objects())
@@ -340,9 +339,16 @@ def main(ctx):
                  "s": 1, "func": "vector"}, 2))
     esc.append(({"strategy": "es", "d": 2, "lmin": 1, "lmax": 2, "version": 0, "nref": 1, "automatic": False, "single_dim": True,
                  "s": 1, "func": "vector"}, 2))
+    # other grid families under extend-split (high-order grids switch the automatic mode to the parent-based estimates)
+    for grid in ("lagrange2", "bspline3", "simpson"):
+        for auto in (False, True):
+            esc.append(({"strategy": "es", "d": 2, "lmin": 1, "lmax": 2 if q else 3, "version": 0, "nref": 1, "automatic": auto,
+                         "single_dim": False, "s": 1, "grid": grid, "func": "vector" if grid != "lagrange2" else "scalar"}, 2))
+    esc.append(({"strategy": "es", "d": 2, "lmin": 1, "lmax": 2, "version": 0, "nref": 1, "automatic": True, "single_dim": False,
+                 "s": 1, "grid": "lagrange2", "func": "vector", "towards": [[0.3, 0.3], [0.8, 0.8]]}, 4))
     for cfg, D in esc:
-        tag = "es_d%d_lmax%d_nref%d_auto%d_single%d_%s_D%d_s%d" % (cfg["d"], cfg["lmax"], cfg["nref"], cfg["automatic"],
-                                                                  cfg["single_dim"], cfg["func"], D, cfg["s"])
+        tag = "es_%s_d%d_lmax%d_nref%d_auto%d_single%d_%s_D%d_s%d" % (cfg.get("grid", "trapezoidal"), cfg["d"], cfg["lmax"], cfg["nref"], cfg["automatic"],
+                                                                     cfg["single_dim"], cfg["func"], D, cfg["s"])
         ctx.bounds[tag] = core.bfs(ctx, cfg, D, tag=tag)
     return ctx.finish(
         rule="standard combination: complete lattice d x (lmin<=lmax) x box x grid family x boundary; dimension-adaptive: BFS over "
